@@ -88,6 +88,7 @@ func hookSummary(c *Ctx, fn *ssa.Function) hookFacts {
 func c14(c *Ctx) {
 	r := c.R
 	summaryAnnotation(c)
+	c14readers(c)
 	r.Decides("pod-level and container-level setters use the same extractor on the same list (Requests for shares, Limits for quota and memory), the same conversion, the same post-conversion adjustment (division by the scale ratio above 1, nothing else), the same response field and the same disabled-quota value")
 	r.Decides("every write of the response is dominated by the pod being BE and an extended resource spec being present")
 	r.Decides("the CPU normalization ratio read from the node is always handed to the rule, also when the annotation is gone (-1)")
@@ -141,5 +142,47 @@ func c14(c *Ctx) {
 			ok := len(reach.Returns()) == 0 && upd.Common().Args[1] == extract(get.Value(), 0)
 			r.Check(ok, "PATH", key, c.InstrPos(upd), "every successfully read ratio (including 'unset') reaches the rule", "a successfully read ratio can be dropped before UpdateCPUNormalizationRatio (e.g. when the annotation was removed): quotas keep being divided by the stale ratio")
 		}
+	}
+}
+
+// c14readers: a declared batch amount is what the readers return.
+func c14readers(c *Ctx) {
+	r := c.R
+	r.Rule("PATH(readers): in util.GetBatchMilliCPUFromResourceList / GetBatchMemoryFromResourceList, when the batch entry is present every return is a value read from that quantity (Value()/MilliValue()); the 'not declared' value -1 is returned only when the entry is absent (a present quantity in a form such as 1.5Gi must not read as unlimited)")
+	for _, name := range []string{"GetBatchMilliCPUFromResourceList", "GetBatchMemoryFromResourceList"} {
+		fn := c.Fn("pkg/util", "", name)
+		if fn == nil {
+			continue
+		}
+		f := an.Facts{}
+		for _, b := range fn.Blocks {
+			for _, in := range b.Instrs {
+				if e, ok := in.(*ssa.Extract); ok && e.Index == 1 {
+					if lk, ok := e.Tuple.(*ssa.Lookup); ok && lk.CommaOk {
+						f[e] = an.True
+					}
+				}
+			}
+		}
+		reach := an.Explore(fn, nil, f, nil)
+		bad := ""
+		for _, ret := range reach.Returns() {
+			for _, v := range reach.Values(ret.Results[0]) {
+				fromQ := false
+				for x := range backwardAll(v) {
+					if call, ok := x.(*ssa.Call); ok {
+						switch an.ShortCallee(&call.Call) {
+						case "Value", "MilliValue":
+							fromQ = true
+						}
+					}
+				}
+				// other extraction methods (AsInt64, AsDec..) are partial: they must not be the only source
+				if _, isConst := v.(*ssa.Const); isConst || !fromQ {
+					bad = c.InstrPos(ret)
+				}
+			}
+		}
+		r.Check(len(f) == 1 && bad == "", "PATH", fkey(fn)+"/present=>its-value", c.Pos(fn.Pos()), "a present entry is returned through Value()/MilliValue()", "with the batch entry present a return at "+bad+" yields something else than the quantity's Value()/MilliValue() (e.g. the 'not declared' constant): the container becomes unlimited although it declares an amount")
 	}
 }
